@@ -48,7 +48,9 @@ func buildForest(c *vcore.Ctx, root string) *c02forest {
 	for _, fl := range []string{"a/f1", "a/b/f2", "c/f3", "f0"} {
 		os.WriteFile(filepath.Join(root, fl), []byte("x"), 0644)
 	}
-	targets := []string{"../c", "../a/b", "b", "f1", "../f0", "..", "../..", root + "/c/d", root + "/a", root + "/a/b/f2", "nowhere", "../a/l0", "../c/l1", "l2", "/", "b/../../c", "."}
+	targets := []string{"../c", "../a/b", "b", "f1", "../f0", "..", "../..", root + "/c/d", root + "/a", root + "/a/b/f2", "nowhere", "../a/l0", "../c/l1", "l2", "/", "b/../../c", ".",
+		// targets whose text passes through another link and then "..": ".." applies to where that link leads
+		"l0/..", "l1/../f0", "l0/../f1", "../a/l0/../f3", "../c/l1/..", "l2/../b", "../l0/../c", "l1/../../a/f1", "l3/../l0"}
 	n := 2 + src.Int(5, "nlinks")
 	f.nlinks = n
 	var desc []string
@@ -62,6 +64,19 @@ func buildForest(c *vcore.Ctx, root string) *c02forest {
 		os.Symlink(tgt, filepath.Join(root, dir, name))
 		desc = append(desc, fmt.Sprintf("%s/%s->%s", dir, name, strings.ReplaceAll(tgt, root, "$R")))
 		f.all = append(f.all, name)
+	}
+	if src.Bool(1, 2, "link_pair") {
+		// a directory link and, next to it, a link whose target text goes through it and then "..":
+		// the kernel applies ".." to where the first link leads
+		dir := f.dirs[src.Int(len(f.dirs), "pairdir")]
+		to := []string{root + "/c/d", root + "/a/b", "../c/d", "../a/b", root + "/a"}[src.Int(5, "pairto")]
+		via, name := fmt.Sprintf("l%d", n), fmt.Sprintf("l%d", n+1)
+		os.Symlink(to, filepath.Join(root, dir, via))
+		tgt := via + "/../" + []string{"f0", "f1", "f2", "f3", "d", "b", "new"}[src.Int(7, "pairleaf")]
+		os.Symlink(tgt, filepath.Join(root, dir, name))
+		desc = append(desc, fmt.Sprintf("%s/%s->%s", dir, via, strings.ReplaceAll(to, root, "$R")), fmt.Sprintf("%s/%s->%s", dir, name, tgt))
+		f.all = append(f.all, via, name, name)
+		f.nlinks = n + 2
 	}
 	f.all = append(f.all, "a", "b", "c", "d", "f0", "f1", "f2", "f3", "new", ".", "..", "..", ".")
 	c.Logf("forest: dirs a a/b c c/d, files f0 a/f1 a/b/f2 c/f3, links %v", desc)
